@@ -242,8 +242,16 @@ def apply_rewrites(text, d, log, where):
         if op == "rewrite_call":
             # `NAME(a1, a2, ...)` (exactly one call site) -> template where $n is the text of the n-th argument, verbatim
             name = rw["old"]
+            ordinal = None
+            mo = re.match(r"(.*)#(\d+)$", name)
+            if mo:
+                name, ordinal = mo.group(1), int(mo.group(2))
             mask = code_mask(text)
             hits = [m for m in re.finditer(re.escape(name) + r"\s*\(", mask)]
+            if ordinal is not None:
+                if ordinal > len(hits):
+                    raise AssembleError("rule %s anchor lost in %s: call %s occurs %d times, #%d wanted" % (rw["rule"], where, name, len(hits), ordinal))
+                hits = [hits[ordinal - 1]]
             if len(hits) != 1:
                 raise AssembleError("rule %s anchor lost in %s: call %s occurs %d times" % (rw["rule"], where, name, len(hits)))
             from rustscan import match_delim
